@@ -149,12 +149,18 @@ inline void write_partial(const Args &a, const Stats &st, double wall) {
 }
 
 // ---------- crash attribution ----------
-struct Crumb { char text[4000]; volatile int valid; };
+struct Crumb { char text[4000]; char note[3000]; volatile int valid; };
 inline Crumb *&crumb_ptr() { static Crumb *p = nullptr; return p; }
 inline void crumb(const std::string &s) {
   Crumb *c = crumb_ptr(); if (!c) return;
   size_t n = s.size() < sizeof(c->text) - 1 ? s.size() : sizeof(c->text) - 1;
-  memcpy(c->text, s.data(), n); c->text[n] = 0; c->valid = 1;
+  memcpy(c->text, s.data(), n); c->text[n] = 0; c->note[0] = 0; c->valid = 1;
+}
+// optional human-readable description of the unit about to run (shown if the process dies inside it)
+inline void crumb_note(const std::string &s) {
+  Crumb *c = crumb_ptr(); if (!c) return;
+  size_t n = s.size() < sizeof(c->note) - 1 ? s.size() : sizeof(c->note) - 1;
+  memcpy(c->note, s.data(), n); c->note[n] = 0;
 }
 
 struct Ctx {
@@ -205,7 +211,7 @@ inline int supervise(const Args &args, const std::function<void(Ctx &)> &body) {
   std::set<std::string> skip;
   std::vector<Violation> crashes;
   for (int attempt = 0; attempt < 12; ++attempt) {
-    cr->valid = 0; cr->text[0] = 0;
+    cr->valid = 0; cr->text[0] = 0; cr->note[0] = 0;
     fflush(stdout); fflush(stderr);
     pid_t pid = fork();
     if (pid < 0) { perror("fork"); return 3; }
@@ -224,7 +230,7 @@ inline int supervise(const Args &args, const std::function<void(Ctx &)> &body) {
     if (WIFSIGNALED(status)) snprintf(why, sizeof why, "process died with signal %d (%s)", WTERMSIG(status), strsignal(WTERMSIG(status)));
     else snprintf(why, sizeof why, "process exited with status %d", WEXITSTATUS(status));
     fprintf(stderr, "[supervise] unit '%s': %s\n", unit.c_str(), why);
-    Violation v; v.unit = unit; v.msg = std::string("CRASH while executing this unit: ") + why; v.attrs["kind"] = "crash";
+    Violation v; v.unit = unit; v.msg = std::string("CRASH while executing this unit: ") + why + (cr->valid && cr->note[0] ? std::string(" | unit: ") + cr->note : std::string()); v.attrs["kind"] = "crash";
     crashes.push_back(v);
     if (!cr->valid || skip.count(unit)) break; // cannot make progress
     skip.insert(unit);
